@@ -90,10 +90,36 @@ def scan_assumptions(lines):
         # name: next `fn name` or bracketed path on this or following lines
         name = ""
         for j in range(i, min(n, i + 6)):
-            mm = re.search(r"\[\s*(<?[^\]]+)\]", lines[j].text) if "assume_specification" in m.group(1) else None
-            if mm:
-                name = mm.group(1).strip()
-                break
+            if "assume_specification" in m.group(1):
+                t = lines[j].text
+                k = t.find("[", t.find("assume_specification") + 1 if j == i else 0)
+                # the generic parameter list `<T, I: ..<[T]>>` may contain brackets: take the bracket group that follows the `>` of the generics
+                gen_end = 0
+                if j == i:
+                    depth = 0
+                    for pos, ch in enumerate(t[t.find("assume_specification") + len("assume_specification"):], t.find("assume_specification") + len("assume_specification")):
+                        if ch == "<":
+                            depth += 1
+                        elif ch == ">":
+                            depth -= 1
+                            if depth == 0:
+                                gen_end = pos
+                                break
+                        elif ch == "[" and depth == 0:
+                            break
+                    k = t.find("[", gen_end)
+                if k >= 0:
+                    depth = 0
+                    for pos in range(k, len(t)):
+                        if t[pos] == "[":
+                            depth += 1
+                        elif t[pos] == "]":
+                            depth -= 1
+                            if depth == 0:
+                                name = t[k + 1:pos].strip()
+                                break
+                    if name:
+                        break
             mm = re.search(r"\bfn\s+(\w+)", lines[j].text)
             if mm:
                 name = mm.group(1)
